@@ -12,6 +12,7 @@ import (
 	"fmt"
 	"io"
 	"sync"
+	"sync/atomic"
 	"time"
 
 	"github.com/buildbarn/bb-remote-execution/pkg/filesystem/pool"
@@ -192,6 +193,18 @@ func (l *errorLog) Log(err error) {
 	l.mu.Unlock()
 }
 
+func (l *errorLog) count() int {
+	l.mu.Lock()
+	defer l.mu.Unlock()
+	return len(l.errs)
+}
+
+func (l *errorLog) all() []string {
+	l.mu.Lock()
+	defer l.mu.Unlock()
+	return append([]string(nil), l.errs...)
+}
+
 // ---------------------------------------------------------------------
 // Parking: a COMPOUND carries an *opCtl in its context. Instrumented
 // call sites (VirtualOpenChild on the root directory handed to the
@@ -206,17 +219,79 @@ const (
 	parkIO         = "io"          // inside leaf VirtualRead / VirtualWrite / VirtualSetAttributes, before the real call
 )
 
+// Fault points: a request may carry one fault that the instrumented
+// call sites fire once, instead of (or after) calling the real object.
+const (
+	faultDirBefore = "dir_before" // VirtualOpenChild of the root handed to the program fails before the real directory is called
+	faultDirAfter  = "dir_after"  // ... after the real directory opened/created the file: the wrapper closes the leaf again and reports failure
+	faultAlloc     = "alloc"      // the file allocator fails while the real directory creates the file (=> StatusErrIO, logged)
+	faultOpenSelf  = "openself"   // VirtualOpenSelf of a leaf fails (OPEN of an existing file, CLAIM_PREVIOUS, I/O with a special state ID)
+	faultIO        = "io"         // VirtualRead / VirtualWrite / VirtualSetAttributes of a leaf fails
+)
+
+func faultStatus(name string) virtual.Status {
+	switch name {
+	case "io":
+		return virtual.StatusErrIO
+	case "access":
+		return virtual.StatusErrAccess
+	case "rofs":
+		return virtual.StatusErrROFS
+	case "nxio":
+		return virtual.StatusErrNXIO
+	}
+	panic("harness: unknown fault status " + name)
+}
+
 type opCtl struct {
 	plan string // one of the park points, or ""
+
+	fault   string // one of the fault points, or ""
+	faultSt string // status the fault reports
 
 	mu       sync.Mutex
 	parkedAt string
 	reached  []string // instrumented call sites this op went through (diagnostic)
+	fired    []string // fault points that fired
 	release  chan struct{}
 }
 
 func newOpCtl(plan string) *opCtl {
 	return &opCtl{plan: plan, release: make(chan struct{})}
+}
+
+// takeFault reports whether the request of ctx carries a not yet fired
+// fault for the given point, and consumes it.
+func takeFault(ctx context.Context, point string) (virtual.Status, bool) {
+	c, _ := ctx.Value(ctlKey{}).(*opCtl)
+	if c == nil {
+		return 0, false
+	}
+	c.mu.Lock()
+	defer c.mu.Unlock()
+	if c.fault != point {
+		return 0, false
+	}
+	c.fault = ""
+	c.fired = append(c.fired, point)
+	return faultStatus(c.faultSt), true
+}
+
+// peekFault reports whether the request carries a pending fault for the point.
+func peekFault(ctx context.Context, point string) bool {
+	c, _ := ctx.Value(ctlKey{}).(*opCtl)
+	if c == nil {
+		return false
+	}
+	c.mu.Lock()
+	defer c.mu.Unlock()
+	return c.fault == point
+}
+
+func (c *opCtl) firedFaults() []string {
+	c.mu.Lock()
+	defer c.mu.Unlock()
+	return append([]string(nil), c.fired...)
 }
 
 func (c *opCtl) where() string {
@@ -250,12 +325,35 @@ func park(ctx context.Context, point string) {
 // ones and never park.
 type parkingDirectory struct {
 	virtual.Directory
+	alloc *countingAllocator
 }
 
 func (d *parkingDirectory) VirtualOpenChild(ctx context.Context, name path.Component, shareAccess virtual.ShareMask, createAttributes *virtual.Attributes, existingOptions *virtual.OpenExistingOptions, requested virtual.AttributesMask, openedFileAttributes *virtual.Attributes) (virtual.Leaf, virtual.AttributesMask, virtual.ChangeInfo, virtual.Status) {
 	park(ctx, parkOpenBefore)
+	if st, fire := takeFault(ctx, faultDirBefore); fire {
+		return nil, 0, virtual.ChangeInfo{}, st
+	}
+	failAlloc := peekFault(ctx, faultAlloc)
+	if failAlloc {
+		// Armed only for the duration of this call of the real
+		// directory, which does not block.
+		d.alloc.failNext.Store(true)
+	}
 	l, m, ci, s := d.Directory.VirtualOpenChild(ctx, name, shareAccess, createAttributes, existingOptions, requested, openedFileAttributes)
+	if failAlloc {
+		if !d.alloc.failNext.Swap(false) {
+			takeFault(ctx, faultAlloc) // the allocator consumed it
+		}
+	}
 	park(ctx, parkOpenAfter)
+	if s == virtual.StatusOK {
+		if st, fire := takeFault(ctx, faultDirAfter); fire {
+			// The directory gives up after it opened the file: it
+			// closes the file again; a created file stays created.
+			l.VirtualClose(shareAccess)
+			return nil, 0, virtual.ChangeInfo{}, st
+		}
+	}
 	return l, m, ci, s
 }
 
@@ -272,6 +370,7 @@ const (
 
 type leafStats struct {
 	idx int
+	raw virtual.Leaf // the pool-backed file below the counting wrapper (lock probe)
 
 	mu         sync.Mutex
 	opens      [2]int
@@ -310,17 +409,21 @@ func (r *leafRegistry) all() []*leafStats {
 }
 
 type countingAllocator struct {
-	base virtual.FileAllocator
-	reg  *leafRegistry
+	base     virtual.FileAllocator
+	reg      *leafRegistry
+	failNext atomic.Bool
 }
 
 func (a *countingAllocator) NewFile(holeSource pool.HoleSource, isExecutable bool, size uint64, shareAccess virtual.ShareMask) (virtual.LinkableLeaf, error) {
+	if a.failNext.Swap(false) {
+		return nil, fmt.Errorf("harness: injected file allocation failure")
+	}
 	l, err := a.base.NewFile(holeSource, isExecutable, size, shareAccess)
 	if err != nil {
 		return nil, err
 	}
 	a.reg.mu.Lock()
-	st := &leafStats{idx: len(a.reg.leaves)}
+	st := &leafStats{idx: len(a.reg.leaves), raw: l}
 	a.reg.leaves = append(a.reg.leaves, st)
 	a.reg.mu.Unlock()
 	st.addOpen(shareAccess)
@@ -333,6 +436,9 @@ type countingLeaf struct {
 }
 
 func (l *countingLeaf) VirtualOpenSelf(ctx context.Context, shareAccess virtual.ShareMask, options *virtual.OpenExistingOptions, requested virtual.AttributesMask, attributes *virtual.Attributes) virtual.Status {
+	if st, fire := takeFault(ctx, faultOpenSelf); fire {
+		return st
+	}
 	s := l.LinkableLeaf.VirtualOpenSelf(ctx, shareAccess, options, requested, attributes)
 	if s == virtual.StatusOK {
 		l.st.addOpen(shareAccess)
@@ -384,6 +490,9 @@ func (l *countingLeaf) VirtualRead(ctx context.Context, buf []byte, offset uint6
 		return 0, false, virtual.StatusErrIO
 	}
 	st.mu.Unlock()
+	if fst, fire := takeFault(ctx, faultIO); fire {
+		return 0, false, fst
+	}
 	return l.LinkableLeaf.VirtualRead(ctx, buf, offset)
 }
 
@@ -398,11 +507,17 @@ func (l *countingLeaf) VirtualWrite(ctx context.Context, buf []byte, offset uint
 		return 0, virtual.StatusErrIO
 	}
 	st.mu.Unlock()
+	if fst, fire := takeFault(ctx, faultIO); fire {
+		return 0, fst
+	}
 	return l.LinkableLeaf.VirtualWrite(ctx, buf, offset)
 }
 
 func (l *countingLeaf) VirtualSetAttributes(ctx context.Context, in *virtual.Attributes, requested virtual.AttributesMask, out *virtual.Attributes) virtual.Status {
 	park(ctx, parkIO)
+	if fst, fire := takeFault(ctx, faultIO); fire {
+		return fst
+	}
 	return l.LinkableLeaf.VirtualSetAttributes(ctx, in, requested, out)
 }
 
